@@ -1571,5 +1571,101 @@ func main() {
 			hx.Emit(l)
 		}
 	}
+	elementProbes()
 	hx.Flush()
+}
+
+// elementProbes: built-ins that iterate the ELEMENTS of what they iterate, given
+// element collections of every kind and length 0..3 whose members may be
+// unhashable, so that the call fails at different points (wrong length, failing
+// insertion, failing comparison).  Whatever the outcome, when the call has
+// returned every collection involved must be unlocked (builtin_balanced): its
+// iterator count is 0 and a content-preserving mutation succeeds.
+func elementProbes() {
+	mk := map[string]func() starlark.Value{
+		"list:unhashable-first": func() starlark.Value {
+			return starlark.NewList([]starlark.Value{starlark.NewList(nil), starlark.MakeInt(1)})
+		},
+		"list:unhashable-second": func() starlark.Value {
+			return starlark.NewList([]starlark.Value{starlark.MakeInt(1), starlark.NewList(nil)})
+		},
+		"list:ok":    func() starlark.Value { return starlark.NewList([]starlark.Value{starlark.String("k"), starlark.MakeInt(1)}) },
+		"list:len1":  func() starlark.Value { return starlark.NewList([]starlark.Value{starlark.String("k")}) },
+		"list:len3":  func() starlark.Value { return starlark.NewList([]starlark.Value{starlark.String("k"), starlark.MakeInt(1), starlark.MakeInt(2)}) },
+		"list:empty": func() starlark.Value { return starlark.NewList(nil) },
+		"dict:len2": func() starlark.Value {
+			d := starlark.NewDict(2)
+			d.SetKey(starlark.String("a"), starlark.MakeInt(1))
+			d.SetKey(starlark.Tuple{starlark.MakeInt(1)}, starlark.MakeInt(2))
+			return d
+		},
+		"set:len2": func() starlark.Value {
+			x := starlark.NewSet(2)
+			x.Insert(starlark.String("a"))
+			x.Insert(starlark.MakeInt(2))
+			return x
+		},
+		"dict:tuple-with-list-key": func() starlark.Value {
+			d := starlark.NewDict(2)
+			d.SetKey(starlark.String("a"), starlark.MakeInt(1))
+			d.SetKey(starlark.String("b"), starlark.MakeInt(2))
+			return d
+		},
+	}
+	exprs := []string{
+		"dict([e])", "dict([('z', 0), e])", "dict([e], z=1)", "dict(outer)",
+		"{}.update([e])", "{}.update([('z', 0), e], y=2)", "{}.update(outer)", "tgt.update([e])", "frozen_tgt.update([e])",
+		"set([e])", "set().union([e])", "set().update([e])", "{e: 1}", "sorted([e, e])", "sorted(outer)", "min([e, [1]])", "max(outer, key=len)",
+		"[a for a, b in [e]]", "{a: b for a, b in [e]}", "zip(*[e])", "list(zip(e, outer))", "enumerate(e)", "tuple(e) in {}", "'%s%s' % tuple(e)", "','.join(e)", "any([e]) and all(e)",
+		"reversed(e)", "len(set(e))", "list(e) + list(outer)", "dict(zip(e, e))", "dict.fromkeys(e)" ,
+	}
+	names := make([]string, 0, len(mk))
+	for k := range mk {
+		names = append(names, k)
+	}
+	sort.Strings(names)
+	id := 0
+	for _, nm := range names {
+		for _, ex := range exprs {
+			id++
+			e := mk[nm]()
+			outer := starlark.NewList([]starlark.Value{starlark.Tuple{starlark.String("p"), starlark.MakeInt(0)}, e})
+			tgt := starlark.NewDict(1)
+			ftgt := starlark.NewDict(1)
+			ftgt.Freeze()
+			env := starlark.StringDict{"e": e, "outer": outer, "tgt": tgt, "frozen_tgt": ftgt}
+			th := &starlark.Thread{Name: "probe"}
+			outcome := "ok"
+			func() {
+				defer func() {
+					if r := recover(); r != nil {
+						outcome = "panic"
+					}
+				}()
+				if _, err := starlark.EvalOptions(&syntax.FileOptions{Set: true}, th, "probe.star", ex, env); err != nil {
+					outcome = "err"
+					if strings.Contains(err.Error(), "undefined") || strings.Contains(err.Error(), "has no .") {
+						outcome = "n/a"
+					}
+				}
+			}()
+			viol := ""
+			for who, v := range map[string]starlark.Value{"e": e, "outer": outer, "tgt": tgt} {
+				if n, ok := starlark.VerifIterCount(v); ok && n != 0 {
+					viol = fmt.Sprintf("after `%s` returned (%s) with e = %s, %s still has itercount %d", ex, outcome, nm, who, n)
+				}
+			}
+			if l, ok := e.(*starlark.List); ok && viol == "" {
+				if err := l.Append(starlark.None); err != nil {
+					viol = fmt.Sprintf("after `%s` returned (%s) with e = %s, e refuses append: %v", ex, outcome, nm, err)
+				}
+			}
+			fam := "element-probe:" + strings.SplitN(ex, "(", 2)[0]
+			l := line{Kind: "probe", ID: fmt.Sprintf("probe-%d", id), Family: fam, Kinds: []int{}, Frozen: []bool{}, Src: ex + "  # e = " + nm, Res: &result{Outcome: outcome}, Viol: viol}
+			if viol != "" {
+				l.VKey = "builtin-leaves-lock:" + strings.SplitN(ex, "(", 2)[0]
+			}
+			hx.Emit(l)
+		}
+	}
 }
